@@ -202,6 +202,25 @@ def main():
                             ndiff += 1
                             ck.violation({"engine": "entry-reload", "file": os.path.relpath(p, V.REPO), "entry_point": nm, "what": "loaded over a loaded module: %s" % d[:200],
                                           "broken": "monitor: a load through the %s entry point into a context that already holds a module differs from the same load into a fresh context" % nm}, key="entry-reload:" + nm)
+                # ... and the same stream handed to the test entry point first and then, without a rewind, to the load entry point (FILE and
+                # callbacks): the position the stream has at hand-over must not matter
+                r2 = V.run([drv, "load"], inp="".join("%s %s\n" % (e, p) for p in rfiles for e in ("LF", "LC", "RF", "RC")), env=env, timeout=3000)
+                b2, cur = [], None
+                for l in r2.stdout.split("\n"):
+                    if l.startswith("RET "): cur = [l]; b2.append(cur)
+                    elif cur is not None and l: cur.append(l)
+                for k, p in enumerate(rfiles):
+                    bs = b2[4 * k: 4 * k + 4]
+                    if len(bs) < 4: break
+                    for i, nm in enumerate(("FILE", "callbacks")):
+                        ck.count(); nre += 1
+                        if bs[i] != bs[2 + i]:
+                            d = next((a + " / " + b for a, b in zip(bs[2 + i], bs[i]) if a != b), "length")
+                            ndiff += 1
+                            ck.violation({"engine": "entry-test-then-load", "file": os.path.relpath(p, V.REPO), "entry_point": nm, "what": "tested, then loaded from the same stream without a rewind: %s" % d[:200],
+                                          "broken": "monitor: a load through the %s entry point from a stream that is not at its start differs from the load of the fresh stream" % nm}, key="entry-test-then-load:" + nm)
+                if r2.returncode != 0:
+                    ck.violation({"engine": "entry-test-then-load", "broken": "sanitizer report / crash", "stderr": r2.stderr[-1500:]}, key="entry-test-then-load-crash")
                 ck.engine_stat("entry_reload", loads_compared=nre)
                 if rr.returncode != 0:
                     ck.violation({"engine": "entry-reload", "broken": "sanitizer report / crash when loading over a loaded module", "stderr": rr.stderr[-1500:]}, key="entry-reload-crash")
